@@ -117,7 +117,7 @@ pub fn run_generic(ctx: &mut Ctx, id: &'static str, methods: &'static [SolveMeth
             }
         }
         let params = if rng.chance(0.6) { ParamSpec::random(rng) } else { ParamSpec::random_custom(rng) };
-        let iters = *rng.pick(&[1u64, 2, 2, 3, 3, 4, 4, 7, 7, 20, 100]);
+        let iters = *rng.pick(&[1u64, 2, 2, 3, 3, 4, 4, 7, 7, 20, 100, 0]);
         let iters = if prep.flat.nodes.len() > 200 { iters.min(20) } else { iters };
         let max_reg = if rng.chance(0.15) { rng.unit() * prep.flat.payoff_range() } else { 0.0 };
         let (sname, mk_sampling) = sampling_for(rng, method);
